@@ -66,7 +66,7 @@ def replay(ctx, binary, behs, prefix):
         if not rr["ok"]:
             sig = rr["sig"]
             if sig.startswith(prefix):
-                ctx.fail(sig, rr["detail"], {"behaviour": b[:rr["bad_step"] + 1], "bad_step": rr["bad_step"]})
+                ctx.fail(sig, rr["detail"], vlib.replay_payload("tq", ["replay", "-in", "{in}", "-out", "{out}"], b, human={"actions": [s["act"] for s in b[1:rr["bad_step"] + 1]]}))
             else:
                 ctx.notes.append("DIVERGENCE %s at step %d of a replayed behaviour: %s" % (sig, rr["bad_step"], rr["detail"]))
     return steps, acts, len(distinct)
